@@ -204,6 +204,9 @@ DeviceManagerV0::select(DeviceKind kind, const std::string& name) const
     std::regex re(name.c_str(),
                   std::regex_constants::icase | std::regex_constants::optimize);
     for (const auto& identifier : identifiers_) {
+        // entries whose description failed are placeholders, not devices
+        if (identifier.status_ != Device_Ok)
+            continue;
         if (identifier.identifier_.kind == kind) {
             // regex match for name
             const auto name_match =
